@@ -626,6 +626,7 @@ const SLOW_MS: u128 = 10_000;
 fn c02_dec<J: Jet>(pb: &[u8], wb: &[u8]) -> Vec<u128> {
     let mut out = vec![];
     let mut slow = 0u128;
+    let alloc_base = crate::alloc_count::reset();
     // A: expression decoder (syntax, canonical order, hidden rules, construction-time typing, close)
     let t0 = Instant::now();
     let a = guarded(|| {
@@ -668,6 +669,8 @@ fn c02_dec<J: Jet>(pb: &[u8], wb: &[u8]) -> Vec<u128> {
     slow |= 4 * (t0.elapsed().as_millis() > SLOW_MS) as u128;
     out.extend(c.unwrap_or(vec![9, 0, 0]));
     out.insert(0, slow);
+    // peak of additional live heap bytes during the three decoder calls (incl. re-encoding)
+    out.push(crate::alloc_count::peak_since(alloc_base) as u128);
     out
 }
 
